@@ -68,13 +68,19 @@
 (*    the implementation's constant folding.                               *)
 (***************************************************************************)
 EXTENDS BV
+LOCAL INSTANCE TLC
+
+\* TLC evaluates function constructors lazily and re-evaluates them on every application; a chain of
+\* bit-vector operations would cost time exponential in its length.  Norm forces a value (a bit
+\* vector) into an explicit sequence.  It is the identity.
+Norm(v) == TLCEval(v)
 
 Poison == <<>>                       \* a bit vector is never empty
 IsPoison(v) == v = Poison
 
 \* function update / removal with a growing / shrinking domain
-Upd(f, x, v) == [y \in (DOMAIN f) \cup {x} |-> IF y = x THEN v ELSE f[y]]
-Del(f, x) == [y \in (DOMAIN f) \ {x} |-> f[y]]
+Upd(f, x, v) == Norm([y \in (DOMAIN f) \cup {x} |-> IF y = x THEN v ELSE f[y]])
+Del(f, x) == Norm([y \in (DOMAIN f) \ {x} |-> f[y]])
 EmptyFcn == [x \in {} |-> 0]
 NoRegs == <<>>
 NoMem == EmptyFcn
@@ -94,19 +100,98 @@ InitMem(addr, seed) == Fin(MixSeq(Mix(seed % 65521, 251), addr))
 HavocByte(seed, n, r, b) == Fin(Mix(Mix(Mix(Mix(seed % 65521, 113), n % 65521), r), b))
 
 (***************************************************************************)
+(* Fast arithmetic.  BV.tla is the reference; its ripple-carry operators   *)
+(* recompute the carry chain for every byte (quadratic, cubic for BvMul)   *)
+(* and its division nests 8*w lazy function values (TLC evaluates function *)
+(* constructors lazily: exponential for w = 8).  The machine executes      *)
+(* millions of operations, so IR.tla uses linear-time transcriptions that  *)
+(* build explicit sequences.  mc/MC_IR checks every one of them against    *)
+(* BV.tla / BVInt.tla (all 1-byte operand pairs and 2- and 3-byte vectors).*)
+(***************************************************************************)
+\* <<s[1], .., s[w], carry>> of a + b + cin
+FAddCC(a, b, cin) ==
+  LET RECURSIVE go(_, _, _)
+      go(i, c, acc) ==
+        IF i > Len(a) THEN Append(acc, c)
+        ELSE go(i + 1, (a[i] + b[i] + c) \div 256, Append(acc, (a[i] + b[i] + c) % 256))
+  IN go(1, cin, <<>>)
+FNot(a) == Norm(BvNot(a))
+FAdd(a, b) == SubSeq(FAddCC(a, b, 0), 1, Len(a))
+FSub(a, b) == SubSeq(FAddCC(a, FNot(b), 1), 1, Len(a))
+FNeg(a) == SubSeq(FAddCC(BvZero(Len(a)), FNot(a), 1), 1, Len(a))
+FCarry(a, b) == FAddCC(a, b, 0)[Len(a) + 1]
+FULt(a, b) == FAddCC(a, FNot(b), 1)[Len(a) + 1] = 0
+FULe(a, b) == ~FULt(b, a)
+FFlip(a) == [a EXCEPT ![Len(a)] = (@ + 128) % 256]
+FSLt(a, b) == FULt(FFlip(a), FFlip(b))
+FSLe(a, b) == ~FSLt(b, a)
+FSCarry(a, b) == IF BvSign(a) = BvSign(b) /\ BvSign(FAdd(a, b)) # BvSign(a) THEN 1 ELSE 0
+FSBorrow(a, b) == IF BvSign(a) # BvSign(b) /\ BvSign(FSub(a, b)) # BvSign(a) THEN 1 ELSE 0
+\* schoolbook multiplication with a running carry, truncated to the operand width (w <= 16)
+FMul(a, b) ==
+  LET w == Len(a)
+      RECURSIVE col(_, _)
+      col(k, i) == IF i > k THEN 0 ELSE a[i] * b[k - i + 1] + col(k, i + 1)
+      RECURSIVE go(_, _, _)
+      go(k, c, acc) ==
+        IF k > w THEN acc
+        ELSE LET t == col(k, 1) + c IN go(k + 1, t \div 256, Append(acc, t % 256))
+  IN go(1, 0, <<>>)
+\* restoring long division on bits (BV!BvUDivRem with every intermediate remainder explicit); b # 0
+FUDivRem(a, b) ==
+  LET w == Len(a)
+      bx == b \o <<0>>
+      Shl1In(r, bit) == Norm([i \in 1..w+1 |-> ((2 * r[i]) % 256) + (IF i = 1 THEN bit ELSE r[i-1] \div 128)])
+      RECURSIVE go(_, _, _)
+      go(j, q, r) ==
+        IF j < 0 THEN [q |-> q, r |-> SubSeq(r, 1, w)]
+        ELSE LET r1 == Shl1In(r, BvBit(a, j))
+             IN IF FULe(bx, r1)
+                THEN go(j - 1, [q EXCEPT ![(j \div 8) + 1] = @ + Pow2(j % 8)], FSub(r1, bx))
+                ELSE go(j - 1, q, r1)
+  IN go(8 * w - 1, BvZero(w), BvZero(w + 1))
+FAbs(a) == IF BvSign(a) = 1 THEN FNeg(a) ELSE a
+FDiv(op, a, b) ==
+  CASE op = "IntDiv" -> FUDivRem(a, b).q
+    [] op = "IntRem" -> FUDivRem(a, b).r
+    [] op = "IntSDiv" -> LET q == FUDivRem(FAbs(a), FAbs(b)).q IN IF BvSign(a) # BvSign(b) THEN FNeg(q) ELSE q
+    [] op = "IntSRem" -> LET r == FUDivRem(FAbs(a), FAbs(b)).r IN IF BvSign(a) = 1 THEN FNeg(r) ELSE r
+FastOps == {"IntAdd", "IntSub", "IntCarry", "IntSCarry", "IntSBorrow", "IntMult",
+            "IntLess", "IntLessEqual", "IntSLess", "IntSLessEqual"}
+FBinOp(op, a, b) ==
+  CASE op = "IntAdd" -> FAdd(a, b)
+    [] op = "IntSub" -> FSub(a, b)
+    [] op = "IntCarry" -> <<FCarry(a, b)>>
+    [] op = "IntSCarry" -> <<FSCarry(a, b)>>
+    [] op = "IntSBorrow" -> <<FSBorrow(a, b)>>
+    [] op = "IntMult" -> FMul(a, b)
+    [] op = "IntLess" -> BvBool(FULt(a, b))
+    [] op = "IntLessEqual" -> BvBool(FULe(a, b))
+    [] op = "IntSLess" -> BvBool(FSLt(a, b))
+    [] op = "IntSLessEqual" -> BvBool(FSLe(a, b))
+
+(***************************************************************************)
 (* Memory                                                                  *)
 (***************************************************************************)
-AddrPlus(a, i) == IF i >= 0 THEN BvAdd(a, BvFromNat(i, Len(a))) ELSE BvSub(a, BvFromNat(-i, Len(a)))
+AddrPlus(a, i) == IF i >= 0 THEN FAdd(a, BvFromNat(i, Len(a))) ELSE FSub(a, BvFromNat(-i, Len(a)))
+\* the addresses a, a+1, .., a+n-1 (only the low byte changes unless it wraps)
+AddrSeq(a, n) ==
+  IF n = 0 THEN <<>>
+  ELSE IF a[1] + n <= 256 THEN [i \in 1..n |-> [a EXCEPT ![1] = @ + i - 1]]
+  ELSE [i \in 1..n |-> AddrPlus(a, i - 1)]
 MemByte(mem, a, seed) == IF a \in DOMAIN mem THEN mem[a] ELSE InitMem(a, seed)
-\* the size bytes at address a, as a bit vector (least significant byte first)
+\* memory order <-> value order (value = least significant byte first)
+ByteOrder(v, env) == IF env.le THEN v ELSE [i \in 1..Len(v) |-> v[Len(v) + 1 - i]]
+\* the size bytes at address a, as a bit vector
 LoadBytes(mem, a, size, env) ==
-  [i \in 1..size |-> MemByte(mem, AddrPlus(a, IF env.le THEN i - 1 ELSE size - i), env.seed)]
-StoreBytes(mem, a, v, env) ==
-  LET size == Len(v)
-      at == [i \in 1..size |-> AddrPlus(a, IF env.le THEN i - 1 ELSE size - i)]   \* address of byte v[i]
-      new == {at[i] : i \in 1..size}
-  IN [x \in (DOMAIN mem) \cup new |->
-        IF x \in new THEN v[CHOOSE i \in 1..size : at[i] = x] ELSE mem[x]]
+  LET at == AddrSeq(a, size)
+  IN Norm(ByteOrder([i \in 1..size |-> MemByte(mem, at[i], env.seed)], env))
+\* mem with the bytes (memory order) bs written at the addresses at
+WriteBytes(mem, at, bs) ==
+  LET new == {at[i] : i \in 1..Len(at)}
+  IN Norm([x \in (DOMAIN mem) \cup new |->
+             IF x \in new THEN bs[CHOOSE i \in 1..Len(at) : at[i] = x] ELSE mem[x]])
+StoreBytes(mem, a, v, env) == WriteBytes(mem, Norm(AddrSeq(a, Len(v))), Norm(ByteOrder(v, env)))
 
 (***************************************************************************)
 (* Expressions                                                             *)
@@ -127,16 +212,13 @@ IrBinOp(op, a, b) ==
   ELSE IF op \in BoolOps /\ (Len(a) # 1 \/ Len(b) # 1) THEN Poison
   ELSE IF op \in DivOps /\ BvIsZero(b)
          THEN (IF op \in {"IntDiv", "IntSDiv"} THEN BvOnes(Len(a)) ELSE a)
-  ELSE IF op \in MulDivOps /\ Len(a) > 8         \* BvBinOp declines these (the analyzer does); the machine does not
-         THEN CASE op = "IntMult" -> BvMul(a, b)
-                [] op = "IntDiv" -> BvUDiv(a, b)
-                [] op = "IntRem" -> BvURem(a, b)
-                [] op = "IntSDiv" -> BvSDiv(a, b)
-                [] op = "IntSRem" -> BvSRem(a, b)
+  ELSE IF op \in DivOps THEN FDiv(op, a, b)     \* any width (BvBinOp declines mul/div wider than 8 bytes)
+  ELSE IF op \in FastOps THEN FBinOp(op, a, b)
   ELSE IF op \in EqualWidthOps \cup BoolOps \cup ShiftOps \cup {"Piece"} THEN BvBinOp(op, a, b)
   ELSE Poison
 IrUnOp(op, a) ==
-  IF op \in {"Int2Comp", "IntNegate"} THEN BvUnOp(op, a)
+  IF op = "Int2Comp" THEN FNeg(a)
+  ELSE IF op = "IntNegate" THEN BvNot(a)
   ELSE IF op = "BoolNegate" /\ Len(a) = 1 THEN BvBoolNegate(a)
   ELSE Poison
 IrCast(op, a, size) ==
@@ -151,10 +233,10 @@ EvalExpr(e, regs) ==
     [] e.k = "const" -> e.c
     [] e.k = "bin" -> LET a == EvalExpr(e.l, regs)
                           b == EvalExpr(e.r, regs)
-                      IN IF IsPoison(a) \/ IsPoison(b) THEN Poison ELSE IrBinOp(e.op, a, b)
-    [] e.k = "un" -> LET a == EvalExpr(e.a, regs) IN IF IsPoison(a) THEN Poison ELSE IrUnOp(e.op, a)
-    [] e.k = "cast" -> LET a == EvalExpr(e.a, regs) IN IF IsPoison(a) THEN Poison ELSE IrCast(e.op, a, e.s)
-    [] e.k = "sub" -> LET a == EvalExpr(e.a, regs) IN IF IsPoison(a) THEN Poison ELSE IrSubpiece(a, e.low, e.s)
+                      IN IF IsPoison(a) \/ IsPoison(b) THEN Poison ELSE Norm(IrBinOp(e.op, a, b))
+    [] e.k = "un" -> LET a == EvalExpr(e.a, regs) IN IF IsPoison(a) THEN Poison ELSE Norm(IrUnOp(e.op, a))
+    [] e.k = "cast" -> LET a == EvalExpr(e.a, regs) IN IF IsPoison(a) THEN Poison ELSE Norm(IrCast(e.op, a, e.s))
+    [] e.k = "sub" -> LET a == EvalExpr(e.a, regs) IN IF IsPoison(a) THEN Poison ELSE Norm(IrSubpiece(a, e.low, e.s))
     [] OTHER -> Poison                                   \* "unknown"
 
 (***************************************************************************)
@@ -169,7 +251,7 @@ EvalExpr(e, regs) ==
 (*   mem   the written memory (call/return/deadend)                        *)
 (***************************************************************************)
 Obs(k, a, s, v, t, regs, mem) == [k |-> k, a |-> a, s |-> s, v |-> v, t |-> t, regs |-> regs, mem |-> mem]
-PhysRegs(st, env) == [i \in 1..Len(env.physregs) |-> ReadVar(env.physregs[i], st.regs)]
+PhysRegs(st, env) == Norm([i \in 1..Len(env.physregs) |-> ReadVar(env.physregs[i], st.regs)])
 Emit(st, o) == [st EXCEPT !.obs = Append(@, o), !.n = @ + 1]
 ObsState(k, a, t, st, env) == Obs(k, a, 0, Poison, t, PhysRegs(st, env), st.mem)
 
@@ -216,14 +298,10 @@ Havoc(st, env) ==
       regs == [x \in names |->
                  IF x = env.sp.n THEN spv
                  ELSE IF P[idx(x)].s = 1 THEN <<HavocByte(env.seed, n, idx(x), 1) % 2>>
-                 ELSE [b \in 1..P[idx(x)].s |-> HavocByte(env.seed, n, idx(x), b)]]
-      slots == IF IsPoison(spv) THEN {} ELSE (0 - HavocWindow)..(HavocWindow - 1)
-      at == [k \in slots |-> AddrPlus(spv, k)]
-      new == {at[k] : k \in slots}
-      mem == [x \in (DOMAIN st.mem) \cup new |->
-                IF x \in new THEN HavocByte(env.seed, n, 1000 + (CHOOSE k \in slots : at[k] = x), 0)
-                ELSE st.mem[x]]
-  IN [st EXCEPT !.regs = regs, !.mem = mem]
+                 ELSE Norm([b \in 1..P[idx(x)].s |-> HavocByte(env.seed, n, idx(x), b)])]
+      at == IF IsPoison(spv) THEN <<>> ELSE Norm(AddrSeq(AddrPlus(spv, 0 - HavocWindow), 2 * HavocWindow))
+      mem == WriteBytes(st.mem, at, [k \in 1..Len(at) |-> HavocByte(env.seed, n, 1000 + k, 0)])
+  IN [st EXCEPT !.regs = Norm(regs), !.mem = Norm(mem)]
 
 AfterCall(st, ret, env) == IF ret = "" THEN Halt(st, "call-noreturn") ELSE Goto(Havoc(st, env), ret)
 
